@@ -149,6 +149,11 @@ def fixed_cases() -> list[dict[str, Any]]:
     out.append({"kind": "poolrun", "mode": "normal", "k": 2, "n_trials": 3, "timeout": None, "n_cbs": 1, "catch": [], "jobs": [dict(ret, end="npnan"), dict(ret, end="nan"), ret, ret]})
     # stop() from an objective while the pool is full
     out.append({"kind": "poolrun", "mode": "normal", "k": 2, "n_trials": 8, "timeout": None, "n_cbs": 1, "catch": [], "jobs": [dict(ret, stop=True, sleep=0.02)] + [dict(ret, sleep=0.03)] * 8})
+    # F42, second variant: a future raised uncaught -> optimize is leaving the `with` block -> the interrupt arrives during the join
+    # (which worker the main thread happens to be joining decides whether a trial is still RUNNING at the raise: several pool sizes)
+    for k_ in (3, 4, 5, 6):
+        out.append({"kind": "poolrun", "mode": "interrupt-exit", "k": k_, "n_trials": k_ + 3, "timeout": None, "n_cbs": 1, "catch": [],
+                    "jobs": [dict(ret, sleep=0.05, interrupt="exit"), dict(boom, sleep=0.02)] + [dict(ret, sleep=0.12), dict(ret, sleep=0.45)] * (k_ // 2 + 1)})
     return out
 
 
@@ -170,12 +175,14 @@ class Run:
         self.cbs_of: dict[int, list[int]] = collections.defaultdict(list)
         self.cb_log: list[list[int]] = []
         self.in_wait = threading.Event()
+        self.in_exit = threading.Event()  # set when the executor's shutdown (the `with` block's __exit__) starts
         self.t_start: Any = None
         self.main_timed = False
         self.worker_timed: dict[int, bool] = {}
         self.main_ident = threading.get_ident()
         self.exc: BaseException | None = None
         self.exc_where: list[str] = []
+        self.exc_frames: list[str] = []
         self.notes: list[str] = []
         with warnings.catch_warnings():
             warnings.simplefilter("ignore")
@@ -263,6 +270,10 @@ class Run:
             _thread.interrupt_main()
         elif sp.get("interrupt") == "now":
             _thread.interrupt_main()
+        elif sp.get("interrupt") == "exit":  # while the main thread is joining the workers in ThreadPoolExecutor.__exit__
+            self.in_exit.wait(3.0)
+            time.sleep(0.01)
+            _thread.interrupt_main()
         if sp.get("stop"):
             trial.study.stop()
         if sp.get("report"):
@@ -338,6 +349,12 @@ class Run:
                 fut_ids[f] = i
                 return f
 
+        def _shutdown(self_, wait=True, *, cancel_futures=False):  # type: ignore[no-untyped-def]
+            run.in_exit.set()
+            return ThreadPoolExecutor.shutdown(self_, wait=wait, cancel_futures=cancel_futures)
+
+        TracingExecutor.shutdown = _shutdown  # type: ignore[method-assign]
+
         def traced_wait(fs, timeout=None, return_when=ALL_COMPLETED):  # type: ignore[no-untyped-def]
             run.in_wait.set()
             try:
@@ -378,7 +395,8 @@ class Run:
                                             catch=tuple(EXC[c] for c in case["catch"]), callbacks=cbs)
                     except BaseException as e:  # noqa: BLE001 - whatever leaves optimize is the observation
                         self.exc = e
-                        self.exc_where = [f.name for f in traceback.extract_tb(e.__traceback__)][-4:]
+                        self.exc_frames = [f.name for f in traceback.extract_tb(e.__traceback__)]
+                        self.exc_where = self.exc_frames[-4:]
                 # the snapshot the property speaks about: the moment optimize returned / raised
                 self.at_exit = [int(t.state) for t in self.study.get_trials(deepcopy=False)]
                 time.sleep(0.005)  # a pending simulated SIGINT is delivered here, not in the harness proper
@@ -446,7 +464,12 @@ def oracle(run: Run) -> list[dict[str, Any]]:
     # executor.submit too) that leaves a started worker un-joined is CPython's ThreadPoolExecutor behaviour: the trial is RUNNING
     # when optimize raises and is finished by the orphan worker shortly after.  Recorded as known finding F42 with its own
     # signature; the plain oracle then looks at the states after the orphan threads were joined.
-    orphan = run.case["mode"] in ("interrupt-submit", "interrupt-wait") and isinstance(run.exc, KeyboardInterrupt) and \
+    # Claimed ONLY when the traceback shows the interrupt inside the executor's submit (a change that makes optimize stop
+    # waiting for its workers - interrupt raised from wait(...) or from optuna's own statements - stays an unlisted violation).
+    in_submit = any(w in ("_adjust_thread_count", "start") for w in run.exc_frames) and "submit" in run.exc_frames
+    # ... or inside the executor's __exit__ -> shutdown(wait=True) -> Thread.join: the join is abandoned, the remaining workers run on
+    in_submit = in_submit or ("__exit__" in run.exc_frames and "join" in run.exc_frames and any(w in ("shutdown", "_shutdown") for w in run.exc_frames))
+    orphan = run.case["mode"] in ("interrupt-submit", "interrupt-wait", "interrupt-exit") and isinstance(run.exc, KeyboardInterrupt) and in_submit and \
         (bool(run.orphans) or any(st == 0 for st in run.at_exit))
     if orphan and any(st == 0 for st in run.at_exit):
         fails.append({"sig": sig("trial-left-running", "poolrun-interrupt-orphan"),
@@ -515,8 +538,9 @@ def check_case(case: dict[str, Any], drv: core.Driver) -> dict[str, Any]:
                       "terminal_after_join": not any(s == 0 for s in run.after_join)}
         if res["obs"]["running_at_raise"] or run.orphans:
             return res  # CPython left a worker un-joined: outside the model (Params.joins), recorded, not replayed
-    if case["mode"] == "interrupt-wait" and isinstance(run.exc, KeyboardInterrupt) and (run.orphans or any(s_ == 0 for s_ in run.at_exit)):
-        res["tags"].append("interrupt-wait-landed-in-submit")
+    if case["mode"] in ("interrupt-wait", "interrupt-exit") and isinstance(run.exc, KeyboardInterrupt) and ("submit" in run.exc_frames or "__exit__" in run.exc_frames) and \
+            (run.orphans or any(s_ == 0 for s_ in run.at_exit)):
+        res["tags"].append("%s-landed-in-%s" % (case["mode"], "submit" if "submit" in run.exc_frames else "exit-join"))
         return res  # the same, when the "wait" variant's signal was delivered a moment later than intended
     m = drv.ask(run.request())
     if m.get("ok"):
